@@ -253,11 +253,19 @@ def _feasible_path (g, target, avoid, limit):
       if m.kind == 'branch' and not isinstance(m.label[0], (ast.For, ast.AsyncFor)):
         key = ast.unparse(m.label[0]); pol = m.label[1]
         if facts.get(key, pol) != pol: continue
+        # a test of a plain flag whose last assignment on this path was a constant (the done-markers the normaliser introduces when it
+        # inlines a helper with early returns, `ok = False ... if not ok:`) has only one feasible outcome
+        t_ = m.label[0]; neg_ = False
+        while isinstance(t_, ast.UnaryOp) and isinstance(t_.op, ast.Not): t_ = t_.operand; neg_ = not neg_
+        if isinstance(t_, ast.Name) and ('=' + t_.id) in facts and (bool(facts['=' + t_.id]) != neg_) != pol: continue
         nf = dict(facts); nf[key] = pol
       elif m.ast is not None:
         killed = _stores_of_node(m)
         if killed:
           nf = dict((k, v) for k, v in facts.items() if not any(_mentions(k, nm) for nm in killed))
+        if isinstance(m.ast, ast.Assign) and len(m.ast.targets) == 1 and isinstance(m.ast.targets[0], ast.Name) and isinstance(m.ast.value, ast.Constant) and m.kind == 'stmt':
+          if nf is facts: nf = dict(facts)
+          nf['=' + m.ast.targets[0].id] = m.ast.value.value
       r = dfs(m, nf, visited | {(n.id, m.id)}, trail + ([m.line] if m.line and (not trail or trail[-1] != m.line) else []))
       if r is not None: return r
     return None
